@@ -870,6 +870,13 @@ class Extractor
         // token-level macro name of the expression itself, when the whole
         // expression is the expansion of one object-like macro use
         SourceLocation B = E->getBeginLoc();
+        // a token typed as a macro ARGUMENT is spelled where the argument
+        // was written: look through argument expansions first
+        {
+          int guard = 0;
+          while (B.isMacroID() && SM.isMacroArgExpansion(B) && guard++ < 16)
+            B = SM.getImmediateSpellingLoc(B);
+        }
         if (B.isMacroID())
         {
           // innermost macro name spelled at this position
@@ -913,6 +920,11 @@ class Extractor
               J.attribute("v2", V2.getExtValue());
           }
           SourceLocation B = CS->getLHS()->getBeginLoc();
+          {
+            int guard = 0;
+            while (B.isMacroID() && SM.isMacroArgExpansion(B) && guard++ < 16)
+              B = SM.getImmediateSpellingLoc(B);
+          }
           if (B.isMacroID())
             J.attribute("mn", Lexer::getImmediateMacroName(B, SM, LO));
         }
